@@ -140,3 +140,26 @@ Theorem C01_code_min_max_enclose : forall c x, 0 <= qb_ub c -> 0 < rden x ->
 Proof. intros c x H D. destruct (ReportLink.link_qbits_reporters (qb_bits c) (qb_int c) (qb_kn c) (qb_sym c)) as [A B].
   rewrite A, B. destruct c. apply qb_minmax_enclose; assumption. Qed.
 Print Assumptions C01_code_min_max_enclose.
+
+(* ---- the source itself: get_clip_bounds and the reporters of quantized_linear, regenerated from qkeras/quantizers.py on every
+        run (coq/gen/LinGen.v): the clip bounds ARE the smallest and largest code of the format, and max() / min() are those
+        codes times the quantization scale the quantizer multiplies its codes by. ---- *)
+From QV Require Import Link.LinLink.
+From QVGen Require LinGen.
+Theorem C01_source_linear_translated : LinGen.lin_translation_ok = true.
+Proof. exact link_lin_ok. Qed.
+Print Assumptions C01_source_linear_translated.
+Theorem C01_source_linear_clip_bounds_are_the_extreme_codes : forall c, ql_sign c = false -> 0 <= ql_ub c ->
+  LinGen.gen_ql_clip_min (ql_bits c) (ql_kn c) (ql_sym c) = rofZ (ql_lo c) /\
+  LinGen.gen_ql_clip_max (ql_bits c) (ql_kn c) (ql_sym c) = rofZ (ql_hi c).
+Proof. intros c S U. split; [apply link_ql_clip_min | apply link_ql_clip_max]; assumption. Qed.
+Print Assumptions C01_source_linear_clip_bounds_are_the_extreme_codes.
+Theorem C01_source_linear_reporters_enclose_with_the_same_scale : forall c qs, ql_sign c = false -> 0 <= ql_ub c ->
+  LinGen.gen_ql_max (ql_bits c) (ql_kn c) (ql_sym c) qs = rmul (rofZ (ql_hi c)) qs /\
+  LinGen.gen_ql_min (ql_bits c) (ql_kn c) (ql_sym c) qs = rmul (rofZ (ql_lo c)) qs.
+Proof. exact link_ql_reporters. Qed.
+Print Assumptions C01_source_linear_reporters_enclose_with_the_same_scale.
+Theorem C01_source_linear_one_bit_sign_bounds : forall c, ql_sign c = true ->
+  LinGen.gen_ql_clip_min (ql_bits c) (ql_kn c) (ql_sym c) = (-1, 2) /\ LinGen.gen_ql_clip_max (ql_bits c) (ql_kn c) (ql_sym c) = (1, 2).
+Proof. exact link_ql_sign_bounds. Qed.
+Print Assumptions C01_source_linear_one_bit_sign_bounds.
